@@ -132,3 +132,48 @@ Proof.
     exists ix. split; [reflexivity|lia].
   - exfalso. apply nth_error_None in En. lia.
 Qed.
+
+(* ownership: every exit of getObjStm either hands the open reader to the
+   caller (success) or has closed it / never opened it *)
+Theorem objstm_reader_ownership_lemma :
+  forall (derr : option cls) (n_o first_o : dval) (ints : list (Z * Z)) (tail_err : cls),
+    match get_objstm_own true derr n_o first_o ints tail_err with
+    | (Ok _, ROpen) => derr = None
+    | (Err _, RNone) => True
+    | (Err _, RClosed) => derr = None
+    | _ => False
+    end.
+Proof.
+  intros derr n_o first_o ints tail_err. unfold get_objstm_own.
+  destruct (negb (n_ok n_o)); [exact I|].
+  destruct derr as [c|]; [exact I|].
+  destruct (get_objstm n_o first_o ints tail_err); reflexivity.
+Qed.
+
+(* the result is the one of the pure model whenever the stream could be opened *)
+Lemma get_objstm_own_result f n_o first_o ints tail_err :
+  fst (get_objstm_own f None n_o first_o ints tail_err) = get_objstm n_o first_o ints tail_err.
+Proof.
+  unfold get_objstm_own, get_objstm, n_ok.
+  destruct n_o as [n|]; cbn [negb]; [|reflexivity].
+  destruct ((n <? 0) || (max_n <? n)); cbn [negb]; [reflexivity|].
+  destruct (read_table (Z.to_nat n) ints tail_err [] 0 0) as [[[tbl pos] rd]|c]; [|reflexivity].
+  destruct first_o as [f0|]; [|reflexivity].
+  destruct (f0 <? pos); [reflexivity|]. destruct (add_first f0 tbl); reflexivity.
+Qed.
+
+(* no exit of getFromObjStm leaves the reader open *)
+Theorem objstm_get_closes_reader_lemma :
+  forall (derr : option cls) (n_o first_o : dval) (ints : list (Z * Z)) (tail_err : cls) (number : Z),
+    snd (get_from_objstm_own true derr n_o first_o ints tail_err number) <> ROpen.
+Proof.
+  intros derr n_o first_o ints tail_err number. unfold get_from_objstm_own.
+  pose proof (objstm_reader_ownership_lemma derr n_o first_o ints tail_err) as H.
+  destruct (get_objstm_own true derr n_o first_o ints tail_err) as [[ix|c] st]; cbn [snd]; [discriminate|].
+  destruct st; try discriminate. exact (False_ind _ H).
+Qed.
+
+(* the code before F55: /N = 1 and no integer in the data leaves it open *)
+Theorem objstm_reader_leak_refuted_lemma :
+  get_from_objstm_own false None (DInt 1) (DInt 4) [] Malformed 3 = (Err Malformed, ROpen).
+Proof. vm_compute. reflexivity. Qed.
